@@ -26,6 +26,12 @@ CLAIMS = {
          "algebraic theorems in progress"),
  "C07": ("proof", "Exact Lie-algebra identities proved over every ordered field for SE2 and SO3 (generator tables regenerated from /repo on every run, hat linear, vee∘hat, bracket = commutator, antisymmetry, Jacobi, inner = Frobenius, weights positive definite); all groups: bit-exact correspondence and exact rational-arithmetic oracle on integer inputs, indices -3..DoF+3.",
          "SO2, SE3, SE_2(3), SGal(3), Rn, Bundle: correspondence + exact oracle only so far"),
+ "C15": ("proof", "Smoothing polynomials proved over R: phi(0)=0, phi(1)=1, monotone on [0,1] for degrees 1-4 (derivative c t^d (1-t)^d >= 0), other degrees raise; every interpolation method proved to raise for t outside [0,1] for every group (any record of primitives); SLERP is ma.rplus(mb.rminus(ma)*t) by definition. All three methods x groups are tied bit-for-bit to the code (t in {0,1,interior,outside,NaN}, end velocities, degrees -1..9); oracle checks end points, the geodesic law log(A^-1 m(t)) = t log(A^-1 B) and rejection at 60 digits.",
+         "end-point/geodesic theorems at the matrix level rest on C01-C04 and are measured, not yet composed into one theorem"),
+ "C16": ("proof", "Decision logic of the four averaging loops proved for every group: empty set raises, singleton returned, loops bounded by max_iterations by construction (structural recursion), identical points return that point at the first stopping test. All four routines are tied bit-for-bit to the code over point clouds of size 0..8; oracle (clouds 1..50, radius <= 0.5, centres anywhere incl. near the cut locus) checks validity, stationarity of the mean tangent, order independence, left/right equivariance.",
+         "convergence within the iteration budget and equivariance are measured (L2), not proved"),
+ "C17": ("proof", "Window structure of decasteljau proved for ALL N, d, closed (no bound): rejection, no unsigned subtraction wraps, every window has d in-bounds indices, consecutive windows overlap by one, the number of windows is maximal ((N-1)/(d-1), fewer than d-1 points unused), the closed curve adds one wrapping window, the same number of points per window. The whole routine is tied bit-for-bit to the code on random trajectories of every group; the box N<=16, d<=N+1, k<=4, open/closed is enumerated exhaustively on the trajectory e_i of R^16, where each curve point reveals which inputs were read and with which Bernstein weights.",
+         "that the last curve point equals the last control point on a group rests on X+(Y-X)=Y (C04), measured by the oracle"),
 }
 
 checks = []
